@@ -91,11 +91,19 @@ moves every coordinate of `X` by `v`.
                                      `[−2π, 2π]`, the listed depths ascend, and no description of the query longitude is exactly `π` away from the
                                      centre used at the query depth (`C08_plume_covers_lon_offset_of_centre`: hypotheses on that centre only).
 * `C08_ridge_lon_offset`             `calculate_ridge_distance_and_spreading` (spherical), every ridge longitude offset by `d`, query longitude
-                                     `L' = L + d + 2πj`: spreading velocity, distance and migration time are unchanged PROVIDED every segment's mid
-                                     longitude and every transform point is within `π` (strictly) of one of the TWO descriptions of the query that
-                                     the code tries, in both frames (`RidgeReach`; `C08_ridge_reach_of_range`: true for feature longitudes in
-                                     `(−π, 2π]` when `L < 0`, in `[−2π, π)` when `L ≥ 0`).  `PeriodLaws`, `AngleAddLaws` for `sin`, `cos`.
-  `C08_ridge_lon_offset_same_sign`   all FOUR outputs when the offset does not re-normalise the query (`L' = L + d`, same sign test): no reach
+                                     `L' = L + d + 2πj`: ALL FOUR outputs (spreading velocity, distance, subducting velocity, migration time) are
+                                     unchanged PROVIDED every segment's mid longitude and every transform point is within `π` (strictly) of one of
+                                     the TWO descriptions of the query that the code tries, in both frames (`RidgeReach`;
+                                     `C08_ridge_reach_of_range`: true for feature longitudes in `(−π, 2π]` when `L < 0`, in `[−2π, π)` when
+                                     `L ≥ 0`).  `PeriodLaws`, `AngleAddLaws` for `sin`, `cos`.
+                                     HISTORY.  A first version of this theorem could only be proved for three outputs: the proof attempt showed
+                                     that at the far end of a segment the copy `other_check_point` took `spreading_velocity_point1` where
+                                     `check_point` takes `subducting_velocity_point1`, so that the subducting velocity depended on which copy was
+                                     used (witness, `π := 3`: ridge `(1,0)–(2,0)`, spreading `1, 2`, subducting `5`, query `5/2`: `5`; offset `2`,
+                                     query `−3/2`: `2`).  Replayed on the library (mass conserving slab temperature 737 K → 656 K under a `+120°`
+                                     offset), and fixed upstream: 'fix: far copy of the query took the spreading velocity as subducting
+                                     velocity', /repo commit 2db42b53.  The model follows and the statement now holds at full strength.
+  `C08_ridge_lon_offset_same_sign`   all four outputs when the offset does not re-normalise the query (`L' = L + d`, same sign test): no reach
                                      hypothesis needed.
 * `C08_ridge_lon_offset_inrange_full_false`
                                      CANDIDATE FINDING.  "All longitudes within `[−2π, 2π]`" is NOT enough: the code tries `L` and `L − 2π` for
@@ -103,10 +111,6 @@ moves every coordinate of `X` by `v`.
                                      wrong side.  Witness (`π := 3`): ridge `(5,0)–(6,0)`, spreading velocities `1, 2`, query longitude `1/2`:
                                      velocity `1` (foot point: the WEST end, 3/2 away instead of 1/2); everything offset by `−5` (ridge
                                      `(0,0)–(1,0)`, query `3/2`): velocity `2` (EAST end).  In degrees: ridge `[350°,0]–[360°,0]`, query `5°`.
-* `C08_ridge_lon_offset_full_false`  CANDIDATE FINDING.  The fourth output (subducting velocity) is not invariant even under `RidgeReach`: at the far
-                                     end of a segment the copy `other_check_point` takes `spreading_velocity_point1` where `check_point` takes
-                                     `subducting_velocity_point1` (utilities.cc:1432).  Witness (`π := 3`): ridge `(1,0)–(2,0)`, spreading `1, 2`,
-                                     subducting `5`, query `5/2`: `5`; offset `d = 2` (ridge `(3,0)–(4,0)`, query `−3/2`): `2`.
 
 What is NOT proved
 * No statement about a whole `World.props3` under translation/rotation of a world: the theorems are per kernel (polygon, Bezier, ridge,
@@ -447,19 +451,21 @@ theorem C08_plume_covers_lon_offset_of_centre (hπ : 0 < T.pi) (f : PlumeFeature
   PlumeFeature.covers_lon_offset_sel T hπ f d ctx q q' j hsph hdepth hrel hy hsel
 
 /-- **C08** common longitude offset, general case, `calculate_ridge_distance_and_spreading` (spherical): every ridge longitude offset by
-`d`, the query's natural coordinates `(r, L, lat)` become `(r, L', lat)` with `L' = L + d + 2πj` (`nat.withLon L'`).  Spreading
-velocity, distance to the ridge and migration time (`RidgeParams.eraseSub` drops the subducting velocity) are unchanged under
-`RidgeReach`: for every segment the mid longitude, and for every transform fault its point `t0`, is strictly within `π` of `L` or of
-the ONE other description the code tries (`otherPoint`: `L + 2π` for `L < 0`, `L − 2π` for `L ≥ 0`), before and after the offset.  The
-strict inequality contains the no-tie condition `|check − m| ≠ |other − m|`.  That `L`, `L'` are canonical is not used; it is what makes
-`RidgeReach` hold for ridges drawn in the ranges of `C08_ridge_reach_of_range`.  `sin`/`cos`: `2π`-periodic with the addition formulas
-(the great-circle distance sees the longitude difference only). -/
+`d`, the query's natural coordinates `(r, L, lat)` become `(r, L', lat)` with `L' = L + d + 2πj` (`nat.withLon L'`).  All four outputs
+(spreading velocity, distance to the ridge, subducting velocity, migration time) are unchanged under `RidgeReach`: for every segment the
+mid longitude, and for every transform fault its point `t0`, is strictly within `π` of `L` or of the ONE other description the code
+tries (`otherPoint`: `L + 2π` for `L < 0`, `L − 2π` for `L ≥ 0`), before and after the offset.  The strict inequality contains the
+no-tie condition `|check − m| ≠ |other − m|`.  That `L`, `L'` are canonical is not used; it is what makes `RidgeReach` hold for ridges
+drawn in the ranges of `C08_ridge_reach_of_range`.  `sin`/`cos`: `2π`-periodic with the addition formulas (the great-circle distance
+sees the longitude difference only).
+The subducting velocity is covered since upstream 'fix: far copy of the query took the spreading velocity as subducting velocity'
+(/repo commit 2db42b53): the defect (utilities.cc, far end of a segment reached by `other_check_point`) was found by the attempt to prove
+this very statement, which then only went through for the other three outputs; the model follows the fix. -/
 theorem C08_ridge_lon_offset (hπ : 0 < T.pi) (hP : PeriodLaws T) (hA : AngleAddLaws T) (d : F) (nat : P3 F) (L' : F) (j : ℤ)
     (hrel : L' = nat.y + d + 2 * T.pi * j) (ridges : List (List (P2 F))) (vels : List (List F)) (subVel : List (List F))
     (migr : List F) (hreach : RidgeReach T ⟨nat.y, nat.z⟩ ⟨L', nat.z⟩ d ridges) :
-    Except.map RidgeParams.eraseSub (@ridgeDistanceAndSpreading F (fieldScalar T) true (ridges.map (List.map (P2.shift ⟨d, 0⟩))) vels
-        (nat.withLon L') subVel migr) =
-      Except.map RidgeParams.eraseSub (@ridgeDistanceAndSpreading F (fieldScalar T) true ridges vels nat subVel migr) :=
+    @ridgeDistanceAndSpreading F (fieldScalar T) true (ridges.map (List.map (P2.shift ⟨d, 0⟩))) vels (nat.withLon L') subVel migr =
+      @ridgeDistanceAndSpreading F (fieldScalar T) true ridges vels nat subVel migr :=
   ridgeDistanceAndSpreading_lon_offset T hπ hP hA d nat L' j hrel ridges vels subVel migr hreach
 
 /-- **C08** `LonReach` (the per-longitude content of `RidgeReach`) from ranges: a canonical query longitude `L < 0` reaches every
@@ -479,23 +485,13 @@ theorem C08_ridge_lon_offset_same_sign (hA : AngleAddLaws T) (d : F) (nat : P3 F
       @ridgeDistanceAndSpreading F (fieldScalar T) true ridges vels nat subVel migr :=
   ridgeDistanceAndSpreading_lon_shift T hA d nat hsign ridges vels subVel migr
 
-/-- the statement with the range hypothesis of the property text only ("longitudes stay within `[−360°, 360°]`"), for the three outputs
-of `C08_ridge_lon_offset` — FALSE, see `C08_ridge_lon_offset_inrange_full_false` -/
+/-- the statement of `C08_ridge_lon_offset` with the range hypothesis of the property text only ("longitudes stay within
+`[−360°, 360°]`") in place of `RidgeReach` — FALSE, see `C08_ridge_lon_offset_inrange_full_false` -/
 def C08_ridge_lon_offset_inrange_full : Prop :=
   0 < T.pi → PeriodLaws T → AngleAddLaws T →
   ∀ (d : F) (nat : P3 F) (L' : F) (j : ℤ) (ridges : List (List (P2 F))) (vels subVel : List (List F)) (migr : List F),
     -T.pi < nat.y → nat.y ≤ T.pi → -T.pi < L' → L' ≤ T.pi → L' = nat.y + d + 2 * T.pi * j →
     (∀ ridge ∈ ridges, ∀ v ∈ ridge, (-(2 * T.pi) ≤ v.x ∧ v.x ≤ 2 * T.pi) ∧ (-(2 * T.pi) ≤ v.x + d ∧ v.x + d ≤ 2 * T.pi)) →
-    Except.map RidgeParams.eraseSub (@ridgeDistanceAndSpreading F (fieldScalar T) true (ridges.map (List.map (P2.shift ⟨d, 0⟩))) vels
-        (nat.withLon L') subVel migr) =
-      Except.map RidgeParams.eraseSub (@ridgeDistanceAndSpreading F (fieldScalar T) true ridges vels nat subVel migr)
-
-/-- the statement of `C08_ridge_lon_offset` for all FOUR outputs — FALSE, see `C08_ridge_lon_offset_full_false` -/
-def C08_ridge_lon_offset_full : Prop :=
-  0 < T.pi → PeriodLaws T → AngleAddLaws T →
-  ∀ (d : F) (nat : P3 F) (L' : F) (j : ℤ) (ridges : List (List (P2 F))) (vels subVel : List (List F)) (migr : List F),
-    -T.pi < nat.y → nat.y ≤ T.pi → -T.pi < L' → L' ≤ T.pi → L' = nat.y + d + 2 * T.pi * j →
-    RidgeReach T ⟨nat.y, nat.z⟩ ⟨L', nat.z⟩ d ridges →
     @ridgeDistanceAndSpreading F (fieldScalar T) true (ridges.map (List.map (P2.shift ⟨d, 0⟩))) vels (nat.withLon L') subVel migr =
       @ridgeDistanceAndSpreading F (fieldScalar T) true ridges vels nat subVel migr
 
@@ -585,28 +581,6 @@ theorem C08_ridge_lon_offset_inrange_full_false : ¬ C08_ridge_lon_offset_inrang
     simp only [List.map_cons, List.map_nil, P2.shift]; norm_num
   have e2 : (⟨1, 1 / 2, 0⟩ : P3 ℚ).withLon (3 / 2) = ⟨1, 3 / 2, 0⟩ := rfl
   obtain ⟨⟨r, hr, hv⟩, ⟨r', hr', hv'⟩⟩ := ridge_inrange_witness
-  rw [e1, e2, hr, hr'] at this
-  have hs : r'.spreading = r.spreading := by
-    have := congrArg (fun x => match x with | Except.ok y => y.spreading | Except.error _ => 0) this
-    simpa [Except.map, RidgeParams.eraseSub] using this
-  rw [hs, hv] at hv'
-  exact absurd hv' (by norm_num)
-
-/-- **C08** (candidate finding) the subducting velocity returned by the ridge kernel is NOT invariant under a common longitude offset
-even when every longitude is reached (`RidgeReach`): utilities.cc:1432 gives the far end of a segment `spreading_velocity_point1` when
-the copy `other_check_point` is used and `subducting_velocity_point1` when `check_point` is used.  Ridge `(1,0)–(2,0)`, spreading
-velocities `1, 2`, one subducting velocity `5`, query longitude `5/2`: `5`; offset by `d = 2` (ridge `(3,0)–(4,0)`, canonical query
-longitude `5/2 + 2 − 2π = −3/2`, used copy `−3/2 + 2π = 9/2`): `2`. -/
-theorem C08_ridge_lon_offset_full_false : ¬ C08_ridge_lon_offset_full c08Flat := by
-  intro h
-  have e : c08Flat.pi = 3 := rfl
-  have := h (by rw [e]; norm_num) c08Flat_periodLaws c08Flat_angleAddLaws 2 ⟨1, 5 / 2, 0⟩ (-3 / 2) (-1) [[⟨1, 0⟩, ⟨2, 0⟩]] [[1, 2]] [[5]] []
-    (by rw [e]; norm_num) (by rw [e]; norm_num) (by rw [e]; norm_num) (by rw [e]; norm_num) (by rw [e]; norm_num)
-    ridge_subducting_witness_reach
-  have e1 : ([[⟨1, 0⟩, ⟨2, 0⟩]] : List (List (P2 ℚ))).map (List.map (P2.shift ⟨2, 0⟩)) = [[⟨3, 0⟩, ⟨4, 0⟩]] := by
-    simp only [List.map_cons, List.map_nil, P2.shift]; norm_num
-  have e2 : (⟨1, 5 / 2, 0⟩ : P3 ℚ).withLon (-3 / 2) = ⟨1, -3 / 2, 0⟩ := rfl
-  obtain ⟨⟨r, hr, hv⟩, ⟨r', hr', hv'⟩⟩ := ridge_subducting_witness
   rw [e1, e2, hr, hr'] at this
   have hs : r' = r := by simpa using this
   rw [hs, hv] at hv'
@@ -745,7 +719,7 @@ example :
     (0 : ℚ) < c08Flat.pi ∧ PeriodLaws c08Flat ∧ AngleAddLaws c08Flat ∧
     ((-3 / 2 : ℚ) = (⟨1, 5 / 2, 0⟩ : P3 ℚ).y + 2 + 2 * c08Flat.pi * ((-1 : ℤ) : ℚ)) ∧
     RidgeReach c08Flat ⟨5 / 2, 0⟩ ⟨-3 / 2, 0⟩ 2 [[⟨1, 0⟩, ⟨2, 0⟩]] := by
-  refine ⟨?_, c08Flat_periodLaws, c08Flat_angleAddLaws, ?_, ridge_subducting_witness_reach⟩
+  refine ⟨?_, c08Flat_periodLaws, c08Flat_angleAddLaws, ?_, ridge_reach_example⟩
   · show (0 : ℚ) < 3; norm_num
   · show (-3 / 2 : ℚ) = 5 / 2 + 2 + 2 * 3 * ((-1 : ℤ) : ℚ); norm_num
 
